@@ -71,6 +71,12 @@ def ask_all(io):
     return answers
 
 
+def predicates(io):
+    """[is_verbose, is_very_verbose, is_debug, is_quiet] of the I/O and of both of its outputs, plus their verbosity."""
+    return [[bool(o.is_verbose()), bool(o.is_very_verbose()), bool(o.is_debug()), bool(o.is_quiet()), o.verbosity]
+            for o in (io, io.output, io.error_output)]
+
+
 def emit(io):
     """What every handler writes: one tagged line per message level on both streams, then a section that is
     overwritten (raw cursor-control codes when, and only when, the I/O is decorated)."""
@@ -94,7 +100,7 @@ def build_app(log, raising):
     class H(object):
         def handle(self, args, io, command):
             log.append({"cmd": command.full_name, "quiet": io.is_quiet(), "verbosity": io.verbosity,
-                        "interactive": io.is_interactive(),
+                        "interactive": io.is_interactive(), "predicates": predicates(io),
                         "args": args.arguments(False), "opts": {k: v for k, v in args.options(False).items()
                                                                 if k in ("foo", "bar")}})
             emit(io)
@@ -134,7 +140,7 @@ def build_tree_app(tree, log, raising):
         class H(object):
             def handle(self, args, io, command):
                 log.append({"cmd": command.full_name, "quiet": io.is_quiet(), "verbosity": io.verbosity,
-                            "interactive": io.is_interactive(), "args": args.arguments(False),
+                            "interactive": io.is_interactive(), "predicates": predicates(io), "args": args.arguments(False),
                             "opts": {k: v for k, v in args.options(False).items() if k not in switch_names}})
                 emit(io)
                 log[-1]["answer"] = ask_all(io)
@@ -279,6 +285,9 @@ def judge(ctx, case, line, tokens, kinds, res, app, label, part="switches"):
         fail("C09.quiet", quiet, rec["quiet"], sig="io-state")
     if rec["verbosity"] != verb:
         fail("C09.verbosity", verb, rec["verbosity"], sig="io-state")
+    want_pred = [[verb >= 1, verb >= 2, verb >= 4, quiet, verb]] * 3
+    if rec["predicates"] != want_pred:
+        fail("C09.verbosity", want_pred, rec["predicates"], sig="io-predicates")
     if rec["interactive"] != ("nointeract" not in kinds):
         fail("C09.no-interaction", "nointeract" not in kinds, rec["interactive"], sig="io-state")
     if "nointeract" in kinds:
